@@ -181,7 +181,8 @@ fn main() {
             let seed: u64 = arg(&args, "--seed", "1").parse().unwrap();
             let rounds: usize = arg(&args, "--rounds", "50").parse().unwrap();
             let ops: usize = arg(&args, "--ops", "2000").parse().unwrap();
-            sstr::stress(seed, threads, slots, contents, rounds, ops, &mut out);
+            let pairs: usize = arg(&args, "--pair-drops", "0").parse().unwrap();
+            sstr::stress(seed, threads, slots, contents, rounds, ops, pairs, &mut out);
         }
         "uid-stress" => {
             let threads: usize = arg(&args, "--threads", "8").parse().unwrap();
